@@ -372,6 +372,50 @@ impl Prop for C03 {
                 }
             },
         ));
+        v.push(Scope::new(
+            "crossings",
+            "boxes (inner 1..5 x 1..4) crossed by a horizontal line through every row or a vertical line through every column, the line overhanging 1..2 cells on either side, crossing cells '+' or the bare wall",
+            |f| {
+                for w in 1..=5usize {
+                    for h in 1..=4usize {
+                        for over in 1..=2i32 {
+                            for plus in 0..2 {
+                                for r in 1..=h as i32 {
+                                    let mut cv = shapes::Canvas::new();
+                                    cv.paste(2, 0, &shapes::boxed(&shapes::SHARP, w, h));
+                                    for x in (2 - over)..(2 + w as i32 + 2 + over) {
+                                        let wall = x == 2 || x == 2 + w as i32 + 1;
+                                        if wall {
+                                            if plus == 1 {
+                                                cv.put(x, r, '+');
+                                            }
+                                        } else {
+                                            cv.put(x, r, '-');
+                                        }
+                                    }
+                                    f(Case::s(enumr::shift(&cv.render(), (2 - over) as usize, 0)));
+                                }
+                                for c in 1..=w as i32 {
+                                    let mut cv = shapes::Canvas::new();
+                                    cv.paste(0, 2, &shapes::boxed(&shapes::SHARP, w, h));
+                                    for y in (2 - over)..(2 + h as i32 + 2 + over) {
+                                        let wall = y == 2 || y == 2 + h as i32 + 1;
+                                        if wall {
+                                            if plus == 1 {
+                                                cv.put(c, y, '+');
+                                            }
+                                        } else {
+                                            cv.put(c, y, '|');
+                                        }
+                                    }
+                                    f(Case::s(cv.render()));
+                                }
+                            }
+                        }
+                    }
+                }
+            },
+        ));
         let fd = if tier == Tier::Quick { 2 } else { 3 };
         v.push(Scope::new(
             &format!("frame-defects-{}", fd),
